@@ -141,19 +141,19 @@ func isStringTagSupportedType(typ *runtime.Type) bool {
 	case runtime.PtrTo(typ).Implements(unmarshalTextType):
 		return false
 	}
-	switch typ.Kind() {
-	case reflect.Map:
-		return false
-	case reflect.Slice:
-		return false
-	case reflect.Array:
-		return false
-	case reflect.Struct:
-		return false
-	case reflect.Interface:
-		return false
+	// like encoding/json: strings, booleans and numbers, directly or behind one pointer
+	if typ.Kind() == reflect.Ptr && typ.Name() == "" {
+		typ = typ.Elem()
 	}
-	return true
+	switch typ.Kind() {
+	case reflect.Bool,
+		reflect.Int, reflect.Int8, reflect.Int16, reflect.Int32, reflect.Int64,
+		reflect.Uint, reflect.Uint8, reflect.Uint16, reflect.Uint32, reflect.Uint64, reflect.Uintptr,
+		reflect.Float32, reflect.Float64,
+		reflect.String:
+		return true
+	}
+	return false
 }
 
 func compileMapKey(typ *runtime.Type, structName, fieldName string, structTypeToDecoder map[uintptr]Decoder) (Decoder, error) {
